@@ -9,6 +9,25 @@ VERIF = os.path.dirname(HERE)
 
 # property -> (technique, level text, level note, design ref); only properties with a working check
 CLAIMED = {
+    "C02": (
+        "TLC: exact rational model of the planar hexagon rounding (nine branches + folding = nearest centre, all lattice points) + TLC trace validation of latLngToCell events (containment deviation, exactness via the neighbour graph)",
+        "The planar rounding _hex2dToCoordIJK is transcribed into integer arithmetic in skew coordinates (H3Hex2d.tla) and TLC "
+        "shows for every point of the 1/60 lattice over a 3x3 block of hexagons in all four quadrants that it returns, in "
+        "ijk+ normal form, a hexagon centre of minimum distance (negative control: a threshold moved by 1/30 is rejected); "
+        "the internal function is bound to the model by validating its results on 3x10^4 (8x10^5) exact lattice points. "
+        "Every recorded latLngToCell call is validated by TLC (Trace_LL.tla): error contract (E_RES_DOMAIN, "
+        "E_LATLNG_DOMAIN, no index), success + layout validity + resolution for every finite input, containment of the "
+        "point in the returned cell's boundary polygon within max(2e-12, 4e-15/cos lat), and exactness: a point deeper "
+        "inside a cell than tolerance + C08 slack must get exactly that cell, a point built next to a cell's boundary "
+        "that cell or a neighbour in the spec's graph N. Inputs: 1.9x10^5 (1.5x10^6) points a fraction 1e-1..1e-12 from "
+        "edges and corners (both sides) of all cells r<=1(2), pentagon disks, icosahedron-edge cells, pole / antimeridian "
+        "cells, random cells at all 16 resolutions; bands 1e-9..3e-3 rad on both sides of all 30 icosahedron edges "
+        "(midpoints, ends, random) at fine resolutions; the 12 vertices; poles and 0.12 degree caps; antimeridian, +-2pi "
+        "rim; uniform points; arbitrary finite doubles; NaN/inf; bad resolutions.",
+        "Containment and depth are numeric projections computed by the harness in long double (gnomonic chart at the "
+        "cell centre, great-circle arc distances; DESIGN 4.3/6); TLC compares the resulting integers (1e-15 rad units) "
+        "with the property's tolerance. Worst deviation measured on the pinned tree: 0.64 x tolerance.",
+        "DESIGN.md 5/C02, 11"),
     "C01": (
         "TLC: exhaustive product-automaton model of the bit tricks (all 2^64 words) + TLC trace validation of isValidCell events",
         "The implementation's three word-parallel bit tricks are modelled as a ripple transducer over the 15 digit "
